@@ -205,3 +205,98 @@ Qed.
 Example ex_links_exact :
   links_exact (const_propagate ex_graph) (gorder (const_propagate ex_graph)).
 Proof. exact (links_exact_derived _ ex_wfg ex_wfb ex_wfx). Qed.
+
+(* ---- a consumer with both inputs on the bypassed wire ---------------- *)
+
+(* w = XOR(in0, zero) is short-circuited by ConstPropagate; c = AND(w, w) reads
+   it on both inputs; d = XOR(c, in1); the output is ID(d). *)
+Definition ex2_build : graph :=
+  let G := empty_graph 2 in
+  let '(G, z) := zero_wire G in
+  let '(G, o) := one_wire G in
+  let '(G, w) := gate_to_new G XOR 0 z in
+  let '(G, c) := gate_to_new G AND w w in
+  let '(G, d) := gate_to_new G XOR c 1 in
+  let '(G, o1) := gate_to_new G XOR d z in
+  flag_outputs G [o1].
+Definition ex2_graph : graph := Eval vm_compute in ex2_build.
+
+(* gate 3 is w's producer, gate 4 the consumer, wire 5 is w *)
+Example ex2_shape :
+  nO (gn ex2_graph 3) = 5 /\ nA (gn ex2_graph 4) = 5 /\ nB (gn ex2_graph 4) = 5 /\
+  wouts (gw ex2_graph 5) = [4; 4] /\ wnum (gw ex2_graph 5) = 2.
+Proof. vm_compute. repeat split. Qed.
+
+(* ConstPropagate moves BOTH inputs of the consumer to in0 (wire 0), clears
+   w's list and counter, and every configuration still computes the meaning *)
+Example ex2_both_inputs_moved :
+  let G1 := const_propagate ex2_graph in
+  nA (gn G1 4) = 0 /\ nB (gn G1 4) = 0 /\ wouts (gw G1 5) = [] /\ wnum (gw G1 5) = 0 /\
+  gerr G1 = 0.
+Proof. vm_compute. repeat split. Qed.
+
+Example ex2_pipeline_all_configs :
+  forallb (fun x =>
+    forallb (fun cfg : bool * target =>
+      let c := pipeline (fst cfg) (snd cfg) ex2_graph in
+      lb_eqb (eval_plain c x) (graph_eval ex2_graph x) && negb (Nat.eqb (length (eval_plain c x)) 0))
+      [(false, Yao); (false, GMW); (true, Yao); (true, GMW)]) all_inputs2 = true.
+Proof. vm_compute. reflexivity. Qed.
+
+(* The "visit once" variant: ForEachOutput skips consecutive duplicate entries
+   and DisconnectOutputs only zeroes the counter.  Then only the A input of
+   op(w, w) is moved, w's counter is forced to 0 while B still reads w, Prune
+   kills w's producer, and the compiled circuit is wrong (or Prune panics). *)
+Fixpoint dedup_consec (l : list nat) : list nat :=
+  match l with
+  | a :: ((b :: _) as t) => if Nat.eqb a b then dedup_consec t else a :: dedup_consec t
+  | _ => l
+  end.
+
+Definition short_circuit_once (G : graph) (gid o : nat) : graph :=
+  let out := nO (gn G gid) in
+  if wout (gw G out) then G
+  else
+    let G1 := fold_left (fun G c => replace_input G c out o) (dedup_consec (wouts (gw G out))) G in
+    set_w G1 out (w_set_num (gw G1 out) 0).
+
+Definition cp_step_once (G : graph) (gid : nat) : graph :=
+  let g := gn G gid in
+  let a := wv (gw G (nA g)) in
+  let b := if is_inv (nop g) then Unknown else wv (gw G (nB g)) in
+  let G1 :=
+    match cp_action (nop g) a b with
+    | ActNone => G
+    | ActZero => set_value G (nO g) Zero
+    | ActOne => set_value G (nO g) One
+    | ActSCB => short_circuit_once G gid (nB g)
+    | ActSCA => short_circuit_once G gid (nA g)
+    end in
+  cp_subst_B (cp_subst_A G1 gid) gid.
+
+Definition const_propagate_once (G : graph) : graph := fold_left cp_step_once (gorder G) G.
+
+Definition pipeline_once (do_prune : bool) (t : target) (G : graph) : graph * circuit :=
+  let G2 := short_circuit_xor_zero (const_propagate_once G) in
+  let G3 := if do_prune then prune G2 else G2 in
+  (cg (fst (compile_state t G3)), compile t G3).
+
+(* only input A of the consumer is moved *)
+Example ex2_once_moves_one_input :
+  let G1 := const_propagate_once ex2_graph in
+  nA (gn G1 4) = 0 /\ nB (gn G1 4) = 5 /\ wnum (gw G1 5) = 0.
+Proof. vm_compute. repeat split. Qed.
+
+(* without pruning the variant is still right; with pruning it is refuted:
+   some input gives a different output, or a pass panics *)
+Example ex2_once_noprune_ok :
+  forallb (fun x => lb_eqb (eval_plain (snd (pipeline_once false Yao ex2_graph)) x)
+                           (graph_eval ex2_graph x)) all_inputs2 = true.
+Proof. vm_compute. reflexivity. Qed.
+
+Example ex2_visit_once_refuted :
+  exists x, In x all_inputs2 /\
+    (negb (Nat.eqb (gerr (fst (pipeline_once true Yao ex2_graph))) 0) ||
+     negb (lb_eqb (eval_plain (snd (pipeline_once true Yao ex2_graph)) x)
+                  (graph_eval ex2_graph x))) = true.
+Proof. exists [false; true]. split; [simpl; auto|]. vm_compute. reflexivity. Qed.
